@@ -178,6 +178,16 @@ theorem ipTo4_none_16 (b : Bytes) (h : ipTo4 b = none) (hl : b.length = 4 ∨ b.
     have h16 : b.length = 16 := by omega
     simp [ipTo16, h4, h16]
 
+/-- date from a millisecond count (repair of KF-C12-5): the specification's day (FLOOR) + 2^31 when the day is in the
+    range of a date, an error otherwise — for every int64 -/
+theorem date_conf (p : Nat) (ts : Int) : Conf p .date (marshalDateMillis ts) (some (.int (ts / 86400000))) := by
+  unfold marshalDateMillis
+  rw [daysSinceEpoch_floor]
+  by_cases hr : fitsU 4 (ts / 86400000 + 2147483648) = true
+  · rw [if_pos hr]
+    exact conf_some rfl (by simp [specEnc, hr, encDateMillis_spec ts hr])
+  · rw [if_neg hr]; trivial
+
 macro "sc_simp" : tactic => `(tactic|
   simp [Conf, marshalScalar, interpScalar, documentedScalar, excludedScalar, CqlTy.isIntCol, CqlTy.isText,
     Marshal.CqlTy.isScalar, marshalIntColumn, marshalVarintColumn, marshalVarcharColumn, intColOf, wfScalar,
@@ -203,10 +213,7 @@ theorem scalar_conf (p : Nat) (t : CqlTy) (g : GoVal) (ht : Marshal.CqlTy.isScal
       simp [documentedScalar, CqlTy.isIntCol] at hd
       first
         | (obtain ⟨hk, hnm⟩ := hd; subst hk; subst hnm
-           have h8 := (holds_int64 v).mp hwf'
-           simp [excludedScalar, intColOf] at hx
-           have h := encDateMillis_spec v hx
-           simp [Conf, marshalScalar, interpScalar, CqlTy.isIntCol, CqlVal.isNull, specEnc, hx, h])
+           exact date_conf p v)
         | (subst hd
            have h8 := (holds_int64 v).mp hwf'
            cases named <;>
@@ -271,11 +278,11 @@ theorem scalar_conf (p : Nat) (t : CqlTy) (g : GoVal) (ht : Marshal.CqlTy.isScal
       | (simp [Marshal.CqlTy.isScalar] at ht; done)
       | (simp [documentedScalar] at hd; done)
       | (simp [excludedScalar, intColOf] at hx
-         obtain ⟨⟨⟨hz, h1⟩, h2⟩, hrange⟩ := hx
+         obtain ⟨⟨hz, h1⟩, h2⟩ := hx
          have hd' := day_of_millis sec nsec hn
-         have h := encDateMillis_spec (exactMillis sec nsec) (by rw [hd']; exact hrange)
-         rw [hd'] at h
-         simp [Conf, marshalScalar, interpScalar, specEnc, CqlVal.isNull, hz, hrange, timeMillis_exact sec nsec h1 h2, h])
+         have hc := date_conf p (exactMillis sec nsec)
+         rw [hd'] at hc
+         simpa [marshalScalar, interpScalar, hz, timeMillis_exact sec nsec h1 h2] using hc)
       | (simp [excludedScalar, intColOf] at hx
          obtain ⟨⟨hz, h1⟩, h2⟩ := hx
          simp [Conf, marshalScalar, interpScalar, specEnc, CqlVal.isNull, hz, h2, timeMillis_exact sec nsec h1 h2,
@@ -319,15 +326,17 @@ theorem scalar_conf (p : Nat) (t : CqlTy) (g : GoVal) (ht : Marshal.CqlTy.isScal
     cases t <;> first
       | (simp [Marshal.CqlTy.isScalar] at ht; done)
       | (simp [documentedScalar] at hd; done)
-      | (have hl : b.length = 4 ∨ b.length = 16 := by
-           simp [excludedScalar, intColOf] at hx; omega
-         cases h4 : ipTo4 b with
+      | (cases h4 : ipTo4 b with
          | some v4 =>
            have := ipTo4_length b v4 h4
            simp [Conf, marshalScalar, interpScalar, CqlVal.isNull, specEnc, h4, this]
          | none =>
-           obtain ⟨h16, hl16⟩ := ipTo4_none_16 b h4 hl
-           simp [Conf, marshalScalar, interpScalar, CqlVal.isNull, specEnc, h4, h16, hl16])
+           have hn4 : b.length ≠ 4 := by intro h; simp [ipTo4, h] at h4
+           by_cases hb : b = []
+           · subst hb; simp [Conf, marshalScalar, interpScalar, h4]
+           · by_cases h16 : b.length = 16
+             · simp [Conf, marshalScalar, interpScalar, CqlVal.isNull, specEnc, h4, hb, h16, ipTo16, optM]
+             · simp [Conf, marshalScalar, h4, hb, ipTo16, hn4, h16, optM])
   | _ => simp [documentedScalar] at hd
 
 /-! ## nesting: list / set / map / tuple of anything, by structural induction -/
@@ -811,7 +820,9 @@ theorem interp_null : ∀ (v : GoVal) (t : CqlTy), interp t v = some .null → n
   | .cqldur m d n, t, h => by cases t <;> simp [interp, interpScalar] at h
   | .uuid b, t, h => by cases t <;> simp [interp, interpScalar] at h
   | .arr16 b, t, h => by cases t <;> simp [interp, interpScalar] at h
-  | .ip b, t, h => by cases t <;> simp [interp, interpScalar] at h <;> (repeat' split at h) <;> simp at h
+  | .ip b, t, h => by
+    cases t <;> simp [interp, interpScalar] at h <;> (repeat' split at h) <;>
+      simp_all [nullish, derefAll, marshalsNil, GoVal.isNil]
   | .slice isNil vs, t, h => by
     cases t <;> simp [interp, interpScalar] at h <;>
       first | (simp [nullish, derefAll, marshalsNil, GoVal.isNil, h]; done) | (split at h <;> simp at h)
